@@ -100,6 +100,12 @@ fn quorums_overlap(a: &ProgressTracker, b: &ProgressTracker, ca: &Conf, cb: &Con
 }
 
 fn check_transition(o: &mut CompOutcome, cx: &mut Ctx, base: &Conf, kind: Kind, chs: &[Ch]) -> Option<Conf> {
+    let mut out = None;
+    super::guarded(o, "C12", &|| format!("{:?} {:?} on {:?}", kind, chs, base), &mut |o| out = check_transition_inner(o, cx, base, kind, chs));
+    out
+}
+
+fn check_transition_inner(o: &mut CompOutcome, cx: &mut Ctx, base: &Conf, kind: Kind, chs: &[Ch]) -> Option<Conf> {
     o.cases += 1;
     let t = match tracker_of(base) {
         Some(t) => t,
